@@ -296,6 +296,22 @@ class IterOf(Ty):
         return SIter(ListOf(self.elem).make(interp, name), 0)
 
 
+class MapOf(Ty):
+    """A dict with symbolic key set (`in`, `[]`, `[]=`, `del`, `get`, `pop`).  ``key`` is Int or Str (opaque
+    objects are keyed by the attribute their interface names in ``map_key``); values are not tracked:
+    a read gives an arbitrary value of shape ``value``."""
+
+    def __init__(self, key, value=None):
+        self.key = key
+        self.value = value
+
+    def make(self, interp, name):
+        from .models import SMap
+        ks = z3.StringSort() if isinstance(self.key, _Str) else z3.IntSort()
+        uid = interp.st.fresh_name(name)
+        return SMap(ks, None, z3.Array(uid + '.has', ks, z3.BoolSort()), None, uid, vty=self.value)
+
+
 class FixedList(Ty):
     def __init__(self, *elems, as_tuple=False):
         self.elems = elems
@@ -527,7 +543,8 @@ class Registry:
         self.loops_by_code = {}
         for (q, ordinal), ls in self.loops.items():
             try:
-                obj, owner = frontend.resolve_qualified(q)
+                # a loop of a nested function: only the enclosing function can be resolved statically
+                obj, owner = frontend.resolve_qualified(q.partition('.<locals>')[0])
             except LookupError as e:
                 self.missing.append((q, str(e)))
                 continue
@@ -709,6 +726,10 @@ def call_opaque_method(interp, o, name, m, args, kwargs):
             iface = m.returns.iface() if isinstance(m.returns.iface, types.FunctionType) else m.returns.iface
             r = new_opaque(interp, iface, '%s.%s()' % (o._pv_uid, name),
                            index=tuple(o._pv_index) + tuple(to_z3(a) for a in args))
+        elif o._pv_index and m.returns is not None:
+            # composite result of a pure method of an indexed object: a function of the index
+            akey = ','.join(str(k) for k in key[2])
+            r = make_indexed(interp, m.returns, '%s.%s(%s)' % (o._pv_uid, name, akey), o._pv_index)
         else:
             r = m.returns.make(interp, '%s.%s()' % (o._pv_uid, name)) if m.returns is not None else None
         o._pv_attrs[key] = r
@@ -754,7 +775,7 @@ class Contract:
 
 
 class LoopSpec:
-    def __init__(self, qname, ordinal, invariant, modifies=None, decreases=None, ghosts=None, note=''):
+    def __init__(self, qname, ordinal, invariant, modifies=None, decreases=None, ghosts=None, note='', entry=None):
         self.qname = qname
         self.ordinal = ordinal
         self.invariant = invariant
@@ -762,6 +783,7 @@ class LoopSpec:
         self.decreases = decreases
         self.ghosts = ghosts or {}
         self.note = note
+        self.entry = entry          # optional snapshot expression evaluated at loop entry: `_entry` in the invariant
 
 
 class Module:
